@@ -34,7 +34,7 @@ def validate_cases(rep, wd, module, cfg, per_case_lines, label="trace", max_reje
     Returns dict case_id -> (line_index_in_case, line, raw) for rejected cases."""
     order = [c for c in per_case_lines if per_case_lines[c]]
     total = sum(len(per_case_lines[c]) for c in order)
-    nsh = max(1, min(NCPU, 8, total // max(1, shard_lines)))
+    nsh = max(1, min(NCPU, 16 if total > 40 * shard_lines else 8, total // max(1, shard_lines)))
     if nsh <= 1:
         return _validate_shard(rep, wd, module, cfg, per_case_lines, order, label, max_rejects, constants)
     groups = [[] for _ in range(nsh)]
@@ -71,7 +71,8 @@ def _validate_shard(rep, wd, module, cfg, per_case_lines, order, label, max_reje
                 owner.append((c, i))
         if not lines:
             break
-        ok, consumed, r = validate_trace(wd, module, lines, cfg=cfg)
+        # (budget sized to the recording: a loaded machine validates a few hundred lines per second with the heavier specs)
+        ok, consumed, r = validate_trace(wd, module, lines, cfg=cfg, timeout=max(900, len(lines) // 40))
         # deviation actions taken are printed by the trace spec as <<"DEV", id, line>>
         devs = []
         for m in re.finditer(r'<<"DEV", "([^"]+)", (\d+)>>', r.out):
